@@ -169,6 +169,15 @@ func (op *Operation) popClosestUnqueried() types.AddrMaybeId {
 }
 
 func (op *Operation) haveQuery() bool {
+	// A candidate is checked against the queried set only when it is added, so an address that was
+	// added under several IDs is still in the frontier after it has been queried. Drop such stale
+	// candidates here, so that the closest unqueried candidate is always one we haven't contacted.
+	for op.unqueried.Len() != 0 {
+		if _, ok := op.queried[addrString(op.closestUnqueried().Addr.String())]; !ok {
+			break
+		}
+		op.popClosestUnqueried()
+	}
 	if op.unqueried.Len() == 0 {
 		return false
 	}
